@@ -274,13 +274,23 @@ func (n *vnode) setHead(num uint64) {
 }
 
 func (n *vnode) restart() {
-	n.bc.Stop()
-	n.open()
-	n.w.emit(map[string]interface{}{"e": "op", "op": "restart", "blocks": []string{}, "idx": 0, "err": "",
+	_, err := n.guard(func() (int, error) {
+		n.bc.Stop()
+		n.open()
+		return 0, nil
+	})
+	n.w.emit(map[string]interface{}{"e": "op", "op": "restart", "blocks": []string{}, "idx": 0, "err": errClass(err),
 		"imported": []string{}, "obs": n.observe()})
 }
 
-func (n *vnode) stop() { n.bc.Stop() }
+func (n *vnode) stop() {
+	_, err := n.guard(func() (int, error) { n.bc.Stop(); return 0, nil })
+	if err != nil { // Stop crashed: that is an outcome (guard has reopened the database)
+		n.w.emit(map[string]interface{}{"e": "op", "op": "stop", "blocks": []string{}, "idx": 0, "err": errClass(err),
+			"imported": []string{}, "obs": n.observe()})
+		n.guard(func() (int, error) { n.bc.Stop(); return 0, nil })
+	}
+}
 
 // path from genesis (exclusive) to v (inclusive)
 func pathTo(v *vblk) []*vblk {
@@ -520,6 +530,7 @@ func TestVerifChain(t *testing.T) {
 	defer w.close()
 	rng := rand.New(rand.NewSource(seed*104729 + 7))
 	ntree := 0
+	defer recordGenFailure(w, func() { fmt.Printf("VERIF-STAT trees=%d events=%d\n", ntree, w.n) })
 	emitTree := func(t *vtree) { w.emit(t.describe()) }
 
 	// 1. catalogue shapes
